@@ -149,6 +149,14 @@ def gen_scenario(seed: int, algos: Sequence[str], envs: Optional[Sequence[str]] 
     K = int(rng.integers(2, Kmax + 1))
     if algo in VOGPish or algo in ("PaVeBaGP", "PaVeBaPartialGP"):
         K = int(rng.integers(2, min(Kmax, 7) + 1))
+    if features.get("big_K") and algo in ("PaVeBa", "Auer", "NaiveElimination"):
+        # many designs, sparse survivors: Python sets of ints >= 8 no longer iterate in sorted order,
+        # which is what any code pairing list(A) / sorted(A) / set order of the active set relies on
+        K = int(rng.integers(12, 41)) if algo != "PaVeBa" else int(rng.integers(10, 21))
+        # regions comparable to the gaps in round 1, so that S shrinks over several rounds
+        sc["contraction"] = float(rng.choice([4, 8, 16])) if algo == "PaVeBa" else float(rng.choice([16, 32]))
+        sc["noise_var"] = float(rng.choice([0.01, 0.04]))
+        sc["eps"] = float(rng.choice([0.1, 0.2, 0.3]))
     d = int(rng.choice([1, 2, 3]))
     slack_vec = None
     if algo == "VOGP":
